@@ -199,6 +199,69 @@ Theorem C20_bitfield_register : forall r bits sg rl rm raw,
 Proof. exact bitfield_register. Qed.
 Print Assumptions C20_bitfield_register.
 
+(* ---- any register, any declared length: a typed write changes nothing outside [ADDRESS, ADDRESS + LENGTH) ---- *)
+Theorem C20_write_frame : forall r v raw raw', 0 <= r_addr r -> 0 <= r_len r -> reg_write r v raw = Ok raw' ->
+  zlen raw' = zlen raw /\ take (r_addr r) raw' = take (r_addr r) raw /\
+  drop (r_addr r + r_len r) raw' = drop (r_addr r + r_len r) raw.
+Proof. exact reg_write_frame. Qed.
+Print Assumptions C20_write_frame.
+
+Theorem C20_disjoint_register_unchanged : forall r v raw raw' r2,
+  0 <= r_addr r -> 0 <= r_len r -> reg_write r v raw = Ok raw' ->
+  0 <= r_addr r2 -> 0 <= r_len r2 ->
+  r_addr r2 + r_len r2 <= r_addr r \/ r_addr r + r_len r <= r_addr r2 ->
+  region_of r2 raw' = region_of r2 raw /\ reg_read r2 raw' = reg_read r2 raw.
+Proof. exact disjoint_register_unchanged. Qed.
+Print Assumptions C20_disjoint_register_unchanged.
+
+(* ---- what the expansion accepts: numerical registers must have len = size_of(ty) (decl_accepts true = the macro
+   after "fix: reject numerical registers whose length differs..."; tied to the real macro by compile tests) ---- *)
+Theorem C20_accepted_len : forall e rd, decl_accepts true e rd = true ->
+  match ty_size (rd_ty rd) with Some n => rd_len rd = n | None => True end.
+Proof. exact accepted_len. Qed.
+Print Assumptions C20_accepted_len.
+
+Theorem C20_accepted_map_registers : forall md, map_accepts true md = true ->
+  forall r, In r (all_regs md) -> reg_accepts r = true.
+Proof. exact map_accepts_regs. Qed.
+Print Assumptions C20_accepted_map_registers.
+
+(* every register type of an accepted declaration: a fitting value is written, reads back exactly, and no byte outside
+   the register changes *)
+Theorem C20_accepted_roundtrip : forall r v raw, reg_accepts r = true -> ty_vocab (r_ty r) -> value_fits r v ->
+  0 <= r_addr r -> 0 <= r_len r -> r_addr r + r_len r <= zlen raw -> bytes_ok raw ->
+  exists raw', reg_write r v raw = Ok raw' /\ reg_read r raw' = Ok v /\ zlen raw' = zlen raw /\
+    take (r_addr r) raw' = take (r_addr r) raw /\ drop (r_addr r + r_len r) raw' = drop (r_addr r + r_len r) raw.
+Proof. exact accepted_roundtrip. Qed.
+Print Assumptions C20_accepted_roundtrip.
+
+Theorem C20_accepted_never_panics : forall r v raw, reg_accepts r = true -> ty_vocab (r_ty r) -> value_typed r v ->
+  0 <= r_addr r -> 0 <= r_len r -> r_addr r + r_len r <= zlen raw -> bytes_ok raw ->
+  reg_write r v raw <> Panic /\ reg_read r raw <> Panic.
+Proof. exact accepted_never_panics. Qed.
+Print Assumptions C20_accepted_never_panics.
+
+Theorem C20_accepted_map_access : forall md m r v, map_accepts true md = true -> regs_ok md ->
+  mem_wf m -> p_size (m_prot m) = mem_size md -> bytes_ok (m_raw m) ->
+  In r (all_regs md) -> ty_vocab (r_ty r) -> value_typed r v ->
+  mem_write m r v <> Panic /\ mem_read m r <> Panic.
+Proof. exact accepted_map_access. Qed.
+Print Assumptions C20_accepted_map_access.
+
+(* typed access does not look at the access rights; registers without explicit offsets are laid out back to back *)
+Theorem C20_typed_access_ignores_rights : forall raw p p' obs r v,
+  mem_read {| m_raw := raw; m_prot := p; m_obs := obs |} r = mem_read {| m_raw := raw; m_prot := p'; m_obs := obs |} r /\
+  omap m_raw (mem_write {| m_raw := raw; m_prot := p; m_obs := obs |} r v) =
+  omap m_raw (mem_write {| m_raw := raw; m_prot := p'; m_obs := obs |} r v).
+Proof. exact typed_access_ignores_rights. Qed.
+Print Assumptions C20_typed_access_ignores_rights.
+
+Theorem C20_running_offsets : forall regs run, Forall (fun r => rd_off r = None) regs ->
+  forall i r o, nth_error regs i = Some r -> nth_error (offsets regs run) i = Some o ->
+  o = run + fold_left Z.add (map rd_len (firstn i regs)) 0.
+Proof. exact running_offsets. Qed.
+Print Assumptions C20_running_offsets.
+
 (* ---- observers fire exactly for writes that overlap their register ---- *)
 Theorem C20_observers : forall m,
   (forall obs ws we, notify_all obs ws we =
@@ -236,3 +299,25 @@ Theorem C20_observers_v0_refuted :
   notify_all_v0 [(0, 2, 0)] 1 1 = [(0, 2, 1)] /\ ~ (exists a, 1 <= a < 1 /\ 0 <= a < 2).
 Proof. exact notify_v0_refuted. Qed.
 Print Assumptions C20_observers_v0_refuted.
+
+(* the pinned macro accepted a numerical register of ANY length: every typed write of an integer / float register whose
+   length differs from its type panicked (also the init value inside Memory::new()), a shorter one was unreadable *)
+Theorem C20_mismatched_len_v0 : forall r bits sg z raw, is_scalar_ty (r_ty r) bits sg -> r_len r <> bits / 8 ->
+  0 <= r_addr r -> r_addr r + r_len r <= zlen raw ->
+  decl_accepts false (r_endian r)
+    {| rd_len := r_len r; rd_acc := r_acc r; rd_ty := r_ty r; rd_off := None; rd_init := r_init r |} = true /\
+  reg_accepts r = false /\
+  reg_write r (VInt z) raw = Panic /\
+  (r_len r < bits / 8 -> reg_read r raw = Err ME_INVALID_DATA).
+Proof. exact scalar_mismatch_v0. Qed.
+Print Assumptions C20_mismatched_len_v0.
+
+Theorem C20_mismatched_len_v0_refuted :
+  let r := {| r_addr := 0; r_len := 4; r_acc := RW; r_ty := TInt 16 false; r_endian := BE; r_init := None |} in
+  let s := {| r_addr := 0; r_len := 1; r_acc := RW; r_ty := TBitField 16 false 11 4; r_endian := BE; r_init := None |} in
+  decl_accepts false BE {| rd_len := 4; rd_acc := RW; rd_ty := TInt 16 false; rd_off := None; rd_init := None |} = true /\
+  reg_write r (VInt 7) [1; 2; 3; 4] = Panic /\ reg_accepts r = false /\
+  reg_read s [1; 2; 3; 4] = Err ME_INVALID_DATA /\ reg_write s (VInt 1) [1; 2; 3; 4] = Err ME_INVALID_DATA /\
+  reg_accepts s = false.
+Proof. exact mismatched_len_v0_refuted. Qed.
+Print Assumptions C20_mismatched_len_v0_refuted.
